@@ -67,25 +67,25 @@ def run(ctx: Ctx) -> None:
     X = xform.AbstractTransformer(e)
 
     def bind(nm):
-        w = models.token("UNQUOTED_STRING", SStr.atom(nm, free=True, excludes=frozenset("()[]\"'` ")))
-        return X.eval_callback("attr_bind", lambda: [w])[0].value
+        w = models.token("UNQUOTED_STRING", nm)  # concrete representative name
+        return X.call1("attr_bind", lambda: [w])
 
     def opt(term):
-        return X.eval_callback("compare_op", lambda: [X.fresh_token(term)])[0].value
+        return X.call1("compare_op", lambda: [X.fresh_token(term)])
 
     builders = {
-        "comparison": lambda: X.eval_callback("comparison", lambda: [bind("a"), opt("EQUAL"), bind("b")])[0].value,
-        "and_test": lambda: X.eval_callback("and_test", lambda: [bind("a"), bind("b")])[0].value,
-        "or_test": lambda: X.eval_callback("or_test", lambda: [bind("a"), bind("b")])[0].value,
-        "add": lambda: X.eval_callback("add", lambda: [bind("a"), bind("b")])[0].value,
-        "mul": lambda: X.eval_callback("mul", lambda: [bind("a"), bind("b")])[0].value,
-        "neg": lambda: X.eval_callback("neg", lambda: [bind("a")])[0].value,
-        "not_expression": lambda: X.eval_callback("not_expression", lambda: [X.eval_callback("expression", lambda: [builders["comparison"]()])[0].value])[0].value,
-        "comparison with a \"..)..\" literal": lambda: X.eval_callback("comparison", lambda: [bind("a"), opt("EQUAL"), models.token("DOUBLE_QUOTED_STRING", '"a)"')])[0].value,
-        "comparison with a '..(..' literal": lambda: X.eval_callback("comparison", lambda: [bind("a"), opt("EQUAL"), models.token("SINGLE_QUOTED_STRING", "'(a'")])[0].value,
-        "comparison with a `..)..` literal": lambda: X.eval_callback("comparison", lambda: [bind("a"), opt("EQUAL"), models.token("ESCAPED_STRING", "`a)`")])[0].value,
-        "sum of two literals `(` + `)`": lambda: X.eval_callback("add", lambda: [models.token("ESCAPED_STRING", "`(`"), models.token("ESCAPED_STRING", "`)`")])[0].value,
-        "func_call": lambda: X.eval_callback("func_call", lambda: [models.token("UNQUOTED_STRING", SStr.atom("f", free=True, excludes=frozenset("()\"'`"))), SStr.atom("p", free=True, excludes=frozenset("()\"'`"))])[0].value,
+        "comparison": lambda: X.call1("comparison", lambda: [bind("a"), opt("EQUAL"), bind("b")]),
+        "and_test": lambda: X.call1("and_test", lambda: [bind("a"), bind("b")]),
+        "or_test": lambda: X.call1("or_test", lambda: [bind("a"), bind("b")]),
+        "add": lambda: X.call1("add", lambda: [bind("a"), bind("b")]),
+        "mul": lambda: X.call1("mul", lambda: [bind("a"), bind("b")]),
+        "neg": lambda: X.call1("neg", lambda: [bind("a")]),
+        "not_expression": lambda: X.call1("not_expression", lambda: [X.eval_callback("expression", lambda: [builders["comparison"]()])[0].value]),
+        "comparison with a \"..)..\" literal": lambda: X.call1("comparison", lambda: [bind("a"), opt("EQUAL"), models.token("DOUBLE_QUOTED_STRING", '"a)"')]),
+        "comparison with a '..(..' literal": lambda: X.call1("comparison", lambda: [bind("a"), opt("EQUAL"), models.token("SINGLE_QUOTED_STRING", "'(a'")]),
+        "comparison with a `..)..` literal": lambda: X.call1("comparison", lambda: [bind("a"), opt("EQUAL"), models.token("ESCAPED_STRING", "`a)`")]),
+        "sum of two literals `(` + `)`": lambda: X.call1("add", lambda: [models.token("ESCAPED_STRING", "`(`"), models.token("ESCAPED_STRING", "`)`")]),
+        "func_call": lambda: X.call1("func_call", lambda: [models.token("UNQUOTED_STRING", "tostring"), "[a],1"]),
     }
     lx = repo.loc("transformer", repo.func("transformer.MapfileTransformer.expression"))
     for name, mk in builders.items():
@@ -144,4 +144,7 @@ def run(ctx: Ctx) -> None:
                     bad.append("iteration over a set display")
                 if isinstance(it, ast.Name) and it.id in ("SINGLETON_COMPOSITE_NAMES", "COMPOSITE_NAMES", "OBJECT_LIST_KEYS", "COMPLEX_TYPES", "SYMBOL_ATTRIBUTES", "ATTRIBUTE_NAMES"):
                     bad.append("iteration over the set " + it.id)
+        from ..pyfacts import unordered_iterations
+
+        bad += [b_ for b_ in unordered_iterations(repo, q, fn) if b_ not in bad]
         ctx.check(not bad, "N4", q, repo.loc(q.split(".")[0], fn), "deterministic", f"{q}: {bad}: the same dictionary and options could produce different text")
